@@ -199,6 +199,9 @@ def ais_stream(rng, n_msgs):
                                           channel=rng.choice(['A', 'B']), seq=seq if len(bits) > 360 else None)
             if rng.random() < 0.15:      # tag block in front of every sentence of the message
                 tb = b's:st%d,c:%d' % (rng.randrange(100), 1241544035 + rng.randrange(1000))
+                if rng.random() < 0.4:      # station names are free text: UTF-8 and Latin-1 bytes (a chunk may end inside a character)
+                    tb = rng.choice([b's:G\xc3\xb6teborg', b's:\xe2\x82\xacuro\xf0\x9f\x9a\xa2', b's:caf\xe9', b's:\xff\xfe']) + b',c:%d' % (
+                        1241544035 + rng.randrange(1000))
                 sents = [b'\\' + tb + b'*' + format(ais.xor_checksum(tb), '02X').encode() + b'\\' + x for x in sents]
             n_ais += 1
             if rng.random() < 0.15:      # a Gatehouse wrapper line in front of the message (attached to it on delivery)
